@@ -1,6 +1,7 @@
 #!/bin/bash
 # Refreshes the scratch harness copy /tmp/hdev (used by try_mutant.sh) from /verif/harness and points
 # its path dependencies at the scratch worktree /tmp/rc instead of /repo.
-rsync -a --exclude target --exclude target-miri --exclude replays --exclude evidence /verif/harness/ /tmp/hdev/
-sed -i 's#path = "/repo#path = "/tmp/rc#g' /tmp/hdev/Cargo.toml
-grep -n 'path = ' /tmp/hdev/Cargo.toml
+RC=${VERIF_RC:-/tmp/rc}; HDEV=${VERIF_HDEV:-/tmp/hdev}
+rsync -a --exclude target --exclude target-miri --exclude replays --exclude evidence /verif/harness/ $HDEV/
+sed -i "s#path = \"/repo#path = \"$RC#g" $HDEV/Cargo.toml
+grep -n 'path = ' $HDEV/Cargo.toml
